@@ -944,6 +944,161 @@ mod c18_wrappers {
     }
 }
 
+// compound layouts (fix f377c75): every truncation point of a valid stream is rejected and leaves the wrapper's own scalar metadata unchanged
+mod c18_compound {
+    use super::fmt_stub;
+    use poulpy_core::layouts::{
+        GGLWE, GGLWECompressed, GGLWEInfos, GGSW, GGSWInfos, GLWEAutomorphismKey, GLWEInfos, GLWEPublicKey, GLWESwitchingKey, GLWESwitchingKeyDegrees,
+        GLWESwitchingKeyDegreesMut, GetGaloisElement, LWEInfos, SetGaloisElement,
+    };
+    use poulpy_core::{Distribution, GetDistribution, GetDistributionMut};
+    use poulpy_hal::layouts::{ReaderFrom, WriterTo};
+    use std::io::Cursor;
+
+    #[kani::proof]
+    #[kani::unwind(10)]
+    #[kani::stub(alloc::fmt::format, fmt_stub)]
+    fn c18_gglwe_read_truncated() {
+        // source: base2k 9, dsize 1; receiver: base2k 8, dsize 2 (same buffer shape: n=2, k=27/24 -> 3 limbs, rank 1 -> 1, dnum 1)
+        let src: GGLWE<Vec<u8>> = GGLWE::alloc(2u32.into(), 9u32.into(), 27u32.into(), 1u32.into(), 1u32.into(), 1u32.into(), 1u32.into());
+        let mut stream: Vec<u8> = Vec::new();
+        assert!(src.write_to(&mut stream).is_ok());
+        let mut g: GGLWE<Vec<u8>> = GGLWE::alloc(2u32.into(), 8u32.into(), 24u32.into(), 1u32.into(), 1u32.into(), 1u32.into(), 2u32.into());
+        let total: usize = kani::any();
+        kani::assume(total <= stream.len());
+        let mut cur = Cursor::new(&stream[..total]);
+        let r = g.read_from(&mut cur);
+        if total < stream.len() {
+            assert!(r.is_err(), "C18:truncated stream rejected");
+            assert!(g.base2k().0 == 8 && g.dsize().0 == 2, "C18:Err leaves wrapper metadata unchanged");
+        } else {
+            assert!(r.is_ok() && g.base2k().0 == 9 && g.dsize().0 == 1, "C18:complete stream accepted, metadata from the stream");
+        }
+    }
+
+    #[kani::proof]
+    #[kani::unwind(10)]
+    #[kani::stub(alloc::fmt::format, fmt_stub)]
+    fn c18_ggsw_read_truncated() {
+        let src: GGSW<Vec<u8>> = GGSW::alloc(2u32.into(), 9u32.into(), 27u32.into(), 1u32.into(), 1u32.into(), 1u32.into());
+        let mut stream: Vec<u8> = Vec::new();
+        assert!(src.write_to(&mut stream).is_ok());
+        let mut g: GGSW<Vec<u8>> = GGSW::alloc(2u32.into(), 8u32.into(), 24u32.into(), 1u32.into(), 1u32.into(), 2u32.into());
+        let total: usize = kani::any();
+        kani::assume(total <= stream.len());
+        let mut cur = Cursor::new(&stream[..total]);
+        let r = g.read_from(&mut cur);
+        if total < stream.len() {
+            assert!(r.is_err(), "C18:truncated stream rejected");
+            assert!(g.base2k().0 == 8 && g.dsize().0 == 2, "C18:Err leaves wrapper metadata unchanged");
+        } else {
+            assert!(r.is_ok() && g.base2k().0 == 9 && g.dsize().0 == 1, "C18:complete stream accepted, metadata from the stream");
+        }
+    }
+
+    #[kani::proof]
+    #[kani::unwind(10)]
+    #[kani::stub(alloc::fmt::format, fmt_stub)]
+    fn c18_switching_key_read_truncated() {
+        let mut src: GLWESwitchingKey<Vec<u8>> = GLWESwitchingKey::alloc(2u32.into(), 9u32.into(), 27u32.into(), 1u32.into(), 1u32.into(), 1u32.into(), 1u32.into());
+        *GLWESwitchingKeyDegreesMut::input_degree(&mut src) = 4u32.into();
+        *GLWESwitchingKeyDegreesMut::output_degree(&mut src) = 2u32.into();
+        let mut stream: Vec<u8> = Vec::new();
+        assert!(src.write_to(&mut stream).is_ok());
+        let mut g: GLWESwitchingKey<Vec<u8>> = GLWESwitchingKey::alloc(2u32.into(), 8u32.into(), 24u32.into(), 1u32.into(), 1u32.into(), 1u32.into(), 2u32.into());
+        let total: usize = kani::any();
+        kani::assume(total <= stream.len());
+        let mut cur = Cursor::new(&stream[..total]);
+        let r = g.read_from(&mut cur);
+        if total < stream.len() {
+            assert!(r.is_err(), "C18:truncated stream rejected");
+            assert!(GLWESwitchingKeyDegrees::input_degree(&g).0 == 0 && GLWESwitchingKeyDegrees::output_degree(&g).0 == 0 && g.base2k().0 == 8 && g.dsize().0 == 2,
+                "C18:Err leaves wrapper metadata unchanged");
+        } else {
+            assert!(r.is_ok() && GLWESwitchingKeyDegrees::input_degree(&g).0 == 4 && GLWESwitchingKeyDegrees::output_degree(&g).0 == 2 && g.base2k().0 == 9,
+                "C18:complete stream accepted, metadata from the stream");
+        }
+    }
+
+    #[kani::proof]
+    #[kani::unwind(10)]
+    #[kani::stub(alloc::fmt::format, fmt_stub)]
+    fn c18_automorphism_key_read_truncated() {
+        let mut src: GLWEAutomorphismKey<Vec<u8>> = GLWEAutomorphismKey::alloc(2u32.into(), 9u32.into(), 27u32.into(), 1u32.into(), 1u32.into(), 1u32.into());
+        src.set_p(-3);
+        let mut stream: Vec<u8> = Vec::new();
+        assert!(src.write_to(&mut stream).is_ok());
+        let mut g: GLWEAutomorphismKey<Vec<u8>> = GLWEAutomorphismKey::alloc(2u32.into(), 8u32.into(), 24u32.into(), 1u32.into(), 1u32.into(), 2u32.into());
+        g.set_p(5);
+        let total: usize = kani::any();
+        kani::assume(total <= stream.len());
+        let mut cur = Cursor::new(&stream[..total]);
+        let r = g.read_from(&mut cur);
+        if total < stream.len() {
+            assert!(r.is_err(), "C18:truncated stream rejected");
+            assert!(g.p() == 5 && g.base2k().0 == 8 && g.dsize().0 == 2, "C18:Err leaves wrapper metadata unchanged");
+        } else {
+            assert!(r.is_ok() && g.p() == -3 && g.base2k().0 == 9, "C18:complete stream accepted, metadata from the stream");
+        }
+    }
+
+    #[kani::proof]
+    #[kani::unwind(10)]
+    #[kani::stub(alloc::fmt::format, fmt_stub)]
+    fn c18_public_key_read_truncated() {
+        let mut src: GLWEPublicKey<Vec<u8>> = GLWEPublicKey::alloc(2u32.into(), 9u32.into(), 9u32.into(), 1u32.into());
+        *src.dist_mut() = Distribution::BinaryBlock(3);
+        let mut stream: Vec<u8> = Vec::new();
+        assert!(src.write_to(&mut stream).is_ok());
+        let mut g: GLWEPublicKey<Vec<u8>> = GLWEPublicKey::alloc(2u32.into(), 8u32.into(), 8u32.into(), 1u32.into());
+        let total: usize = kani::any();
+        kani::assume(total <= stream.len());
+        let mut cur = Cursor::new(&stream[..total]);
+        let r = g.read_from(&mut cur);
+        if total < stream.len() {
+            assert!(r.is_err(), "C18:truncated stream rejected");
+            assert!(matches!(g.dist(), Distribution::NONE) && g.base2k().0 == 8, "C18:Err leaves wrapper metadata unchanged");
+        } else {
+            assert!(r.is_ok() && matches!(g.dist(), Distribution::BinaryBlock(3)) && g.base2k().0 == 9, "C18:complete stream accepted, metadata from the stream");
+        }
+    }
+
+    #[kani::proof]
+    #[kani::unwind(40)]
+    #[kani::stub(alloc::fmt::format, fmt_stub)]
+    fn c18_gglwe_compressed_read_truncated() {
+        let src: GGLWECompressed<Vec<u8>> = GGLWECompressed::alloc(2u32.into(), 9u32.into(), 27u32.into(), 1u32.into(), 1u32.into(), 1u32.into(), 1u32.into());
+        let mut stream: Vec<u8> = Vec::new();
+        assert!(src.write_to(&mut stream).is_ok());
+        let mut g: GGLWECompressed<Vec<u8>> = GGLWECompressed::alloc(2u32.into(), 8u32.into(), 24u32.into(), 1u32.into(), 1u32.into(), 1u32.into(), 2u32.into());
+        let total: usize = kani::any();
+        kani::assume(total <= stream.len());
+        let mut cur = Cursor::new(&stream[..total]);
+        let r = g.read_from(&mut cur);
+        if total < stream.len() {
+            assert!(r.is_err(), "C18:truncated stream rejected");
+            assert!(g.base2k().0 == 8 && g.dsize().0 == 2 && g.max_k().0 == 24, "C18:Err leaves wrapper metadata unchanged");
+        } else {
+            assert!(r.is_ok() && g.base2k().0 == 9 && g.dsize().0 == 1 && g.max_k().0 == 27, "C18:complete stream accepted, metadata from the stream");
+        }
+    }
+
+    // a seed count above the receiver's is a corrupted header: rejected before anything is allocated from it
+    #[kani::proof]
+    #[kani::unwind(40)]
+    #[kani::stub(alloc::fmt::format, fmt_stub)]
+    fn c18_gglwe_compressed_seed_count_rejected() {
+        let mut g: GGLWECompressed<Vec<u8>> = GGLWECompressed::alloc(2u32.into(), 8u32.into(), 24u32.into(), 1u32.into(), 1u32.into(), 1u32.into(), 2u32.into());
+        let hdr: [u8; 20] = kani::any();
+        let seed_len = u32::from_le_bytes([hdr[16], hdr[17], hdr[18], hdr[19]]);
+        kani::assume(seed_len > 1);
+        let mut cur = Cursor::new(&hdr[..]);
+        let r = g.read_from(&mut cur);
+        assert!(r.is_err(), "C18:seed count above the receiver's rejected");
+        assert!(g.base2k().0 == 8 && g.dsize().0 == 2 && g.max_k().0 == 24, "C18:Err leaves wrapper metadata unchanged");
+    }
+}
+
 mod c02b {
     use super::fmt_stub;
     use poulpy_core::layouts::GLWE;
